@@ -967,3 +967,117 @@ def memo_rule(ctx: T.Any, rule: str) -> None:
                                                             (isinstance(r.value, ast.Name) and r.value.id in defs and unparse(defs[r.value.id]) in (unparse(c), f"{cache}[{unparse(key_e)}]"))) for r in wrets)
     ctx.check(rule, same, "utils.memo: returns the value stored under the same key", "utils.memo: the returned value is not the one cached for these arguments",
               f"{[unparse(r) for r in wrets]}", loc=memo.loc(w))
+
+
+def maybe_unbound(cfg: CFG, fn: FunctionInfo) -> T.List[T.Tuple[str, int]]:
+    """Definite-assignment analysis: (local name, CFG node id) for every read of a local on some path on which it has
+    not been bound (UnboundLocalError).  Must-definitions are intersected over predecessors; a statement that raises
+    binds nothing; comprehension variables and names declared global / nonlocal are not locals."""
+    from .pathcond import assigned_names
+    stored: T.Set[str] = set()
+    for n in walk_no_nested(fn.node):
+        if isinstance(n, ast.Name) and isinstance(n.ctx, (ast.Store, ast.Del)):
+            stored.add(n.id)
+        elif isinstance(n, ast.ExceptHandler) and n.name:
+            stored.add(n.name)
+        elif isinstance(n, (ast.Import, ast.ImportFrom)):
+            for a in n.names:
+                stored.add((a.asname or a.name).split(".")[0])
+    comp_vars: T.Set[str] = set()
+    for n in walk_no_nested(fn.node):
+        if isinstance(n, (ast.ListComp, ast.SetComp, ast.DictComp, ast.GeneratorExp)):
+            for g in n.generators:
+                for x in ast.walk(g.target):
+                    if isinstance(x, ast.Name):
+                        comp_vars.add(x.id)
+        elif isinstance(n, (ast.Global, ast.Nonlocal)):
+            comp_vars |= set(n.names)
+    # a comprehension variable that is also an ordinary local is still tracked as a local
+    ordinary: T.Set[str] = set()
+    for n in walk_no_nested(fn.node):
+        if isinstance(n, (ast.Assign, ast.AnnAssign, ast.AugAssign, ast.For, ast.With, ast.ExceptHandler, ast.Import, ast.ImportFrom)):
+            targets: T.List[ast.AST] = []
+            if isinstance(n, ast.Assign):
+                targets = list(n.targets)
+            elif isinstance(n, (ast.AnnAssign, ast.AugAssign, ast.For)):
+                targets = [n.target]
+            elif isinstance(n, ast.With):
+                targets = [i.optional_vars for i in n.items if i.optional_vars is not None]
+            for t in targets:
+                for x in ast.walk(t):
+                    if isinstance(x, ast.Name):
+                        ordinary.add(x.id)
+            if isinstance(n, ast.ExceptHandler) and n.name:
+                ordinary.add(n.name)
+            if isinstance(n, (ast.Import, ast.ImportFrom)):
+                for a in n.names:
+                    ordinary.add((a.asname or a.name).split(".")[0])
+    locals_ = (stored & ordinary) | (stored - comp_vars)
+    locals_ -= set(fn.all_params)
+    universe = frozenset(locals_)
+
+    def defs(node: T.Any) -> T.Set[str]:
+        a = node.ast
+        if a is None:
+            return set()
+        if node.kind == "iter":
+            return {x.id for x in ast.walk(node.extra["target"]) if isinstance(x, ast.Name)} & universe
+        if node.kind == "handler":
+            return ({a.name} if getattr(a, "name", None) else set()) & universe
+        if node.kind == "test":
+            return {x.target.id for x in ast.walk(a) if isinstance(x, ast.NamedExpr) and isinstance(x.target, ast.Name)} & universe
+        out = set(assigned_names(a))
+        if isinstance(a, (ast.Import, ast.ImportFrom)):
+            out |= {(al.asname or al.name).split(".")[0] for al in a.names}
+        if isinstance(a, (ast.FunctionDef, ast.AsyncFunctionDef, ast.ClassDef)):
+            out.add(a.name)
+        if isinstance(a, ast.Delete):
+            out = set()
+        return out & universe
+    IN: T.Dict[int, T.FrozenSet[str]] = {n.id: universe for n in cfg.nodes}
+    IN[cfg.entry] = frozenset()
+    reach = cfg.reachable()
+    work = [cfg.entry]
+    seen_once: T.Set[int] = set()
+    while work:
+        nid = work.pop()
+        node = cfg.nodes[nid]
+        out_ok = IN[nid] | frozenset(defs(node))
+        for dst, label in cfg.succ[nid]:
+            val = IN[nid] if label == ("exc",) else out_ok
+            new = IN[dst] & val if dst in seen_once else val
+            if dst not in seen_once or new != IN[dst]:
+                seen_once.add(dst)
+                IN[dst] = new
+                work.append(dst)
+    found: T.List[T.Tuple[str, int]] = []
+    for n in cfg.nodes:
+        if n.id not in reach or n.ast is None or n.kind in ("handler",):
+            continue
+        roots: T.List[ast.AST]
+        if n.kind == "iter":
+            roots = [n.ast] if not isinstance(n.ast, ast.For) else [n.ast.iter]
+        elif n.kind == "stmt" and isinstance(n.ast, (ast.FunctionDef, ast.AsyncFunctionDef, ast.ClassDef)):
+            continue
+        elif isinstance(n.ast, ast.withitem):
+            roots = [n.ast.context_expr]
+        elif isinstance(n.ast, (ast.If, ast.While)):
+            roots = [n.ast.test]
+        elif isinstance(n.ast, (ast.For, ast.With, ast.Try)):
+            continue
+        else:
+            roots = [n.ast]
+        for r in roots:
+            inner_bound: T.Set[str] = set()
+            for x in ast.walk(r):
+                if isinstance(x, (ast.ListComp, ast.SetComp, ast.DictComp, ast.GeneratorExp)):
+                    for g in x.generators:
+                        inner_bound |= {y.id for y in ast.walk(g.target) if isinstance(y, ast.Name)}
+                if isinstance(x, ast.Lambda):
+                    inner_bound |= {a_.arg for a_ in x.args.args}
+            for x in ast.walk(r):
+                if isinstance(x, ast.Name) and isinstance(x.ctx, ast.Load) and x.id in universe and x.id not in IN[n.id] and x.id not in inner_bound:
+                    if isinstance(n.ast, ast.AugAssign) and False:
+                        continue
+                    found.append((x.id, n.id))
+    return sorted(set(found))
